@@ -69,10 +69,10 @@ NOTE_COMMON = ('Trusts Verus/Z3, Kani/CBMC, the extractor and rewrite table R1-R
 PROPS = {
     'C01': {
         'level': 'proof',
-        'level_text': 'Runtime half only: every combinator of the runtime crate is proved (Verus, all inputs, all stacks, all child node types) to compute the PEG denotation `sem` taken from the property statement: leaves, optional, pair, array, choice 2..12, predicates, PUSH/PEEK/POP/DROP, both paths of sequences 2..12 and of all repetitions (the parse paths after the mechanical rewrite R9 of core::array::from_fn(|_| ..) into the loop it stands for), full-input wrappers, the rule-kind macro arms. The _ALL/slice stack nodes are labelled bounded stand-ins. The generator translation (grammar -> type tree) is not covered.',
+        'level_text': 'Runtime half only: every combinator of the runtime crate is proved (Verus, all inputs, all stacks, all child node types) to compute the PEG denotation `sem` taken from the property statement: leaves, optional, pair, array, choice 2..12, predicates, PUSH/PEEK/POP/DROP, both paths of sequences 2..12 and of all repetitions (the parse paths after the mechanical rewrite R9 of core::array::from_fn(|_| ..) into the loop it stands for), the _ALL / slice stack nodes, full-input wrappers, the rule-kind macro arms. The generator translation (grammar -> type tree) is not covered.',
         'level_note': NOTE_COMMON + 'That `sem` coincides with pest where pest is defined is an assumption (textbook PEG semantics); generator half n/a.',
         'technique': TECH,
-        'verus': ['comb', 'choice', 'nodes', 'seqchk', 'seqpar', 'repchk', 'reppar', 'wrappers', 'leaf', 'input'],
+        'verus': ['comb', 'choice', 'nodes', 'slices', 'slicefn', 'seqchk', 'seqpar', 'repchk', 'reppar', 'wrappers', 'leaf', 'input'],
         'expanded': True,
         'kani': K_PEG,
         'native': NB_PEG + [NB_PEG_D1, NB_GEN, NB_GEN_T, NB_GEN_SKIPTOK, NB_MATCHERS],
@@ -96,7 +96,7 @@ PROPS = {
         'level_text': 'Both methods of the node trait carry the same postcondition over the same `sem`; Verus proves each extracted try_parse_partial_with and try_check_partial_with body against it (optional, pair, array, choice 2..12, predicates, stack nodes, leaves) and the check/parse full-input wrappers against one `full_ok` predicate, so verdict, offset and stack agree for all inputs. For sequences 2..12 and all repetitions both paths are proved against the same denotation (units seqchk/seqpar, repchk/reppar). Identity of the error report is outside Verus (R1 erases the tracker) and is a bounded stand-in (nb_gen: identical error text on every enumerated input, also on Span/Position sub-inputs).',
         'level_note': NOTE_COMMON + 'Error-report identity is only bounded.',
         'technique': TECH,
-        'verus': ['comb', 'choice', 'nodes', 'seqchk', 'seqpar', 'repchk', 'reppar', 'wrappers', 'leaf', 'rules'],
+        'verus': ['comb', 'choice', 'nodes', 'slices', 'slicefn', 'seqchk', 'seqpar', 'repchk', 'reppar', 'wrappers', 'leaf', 'rules'],
         'expanded': True,
         'kani': K_PEG,
         'native': NB_PEG + [NB_GEN, NB_GEN_T, NB_GEN_SKIPTOK, NB_GEN_SUB, NB_GEN_SUB_T],
@@ -129,16 +129,16 @@ PROPS = {
     },
     'C06': {
         'level': 'proof',
-        'level_text': 'Verus proves, for all arguments, that the real normalize_index/constrain_idxs compute the index normalisation the property states (negative from the top, out of range = None, no panic/overflow); Kani re-proves it loop-free over the full i32 x Option<i32> x len domain and checks a Kani function contract. Verus proves PUSH/PEEK/POP/DROP against their denotation incl. failure (not panic) on an empty stack. Matching of slices/_ALL against the input is a labelled bounded stand-in.',
-        'level_note': NOTE_COMMON + 'Assumes stack length <= i32::MAX; assumed specification of Option::map_or.',
+        'level_text': 'Verus proves, for all arguments, that the real normalize_index/constrain_idxs compute the index normalisation the property states (negative from the top, out of range = None, no panic/overflow); Kani re-proves it loop-free over the full i32 x Option<i32> x len domain and checks a Kani function contract. Verus proves PUSH/PEEK/POP/DROP against their denotation incl. failure (not panic) on an empty stack, and the slice nodes: stack_slice (out-of-range bound = failure, empty or inverted range = empty match, and the slice index expression is a proved precondition, so no panic), peek_spans, PEEK_ALL / POP_ALL (whole stack top to bottom, POP_ALL leaves it empty), PeekSlice1/2 (entries a..b from the bottom entry of the slice), both paths (units slices, slicefn). nb_slices and the stack grammars of nb_peg remain as bounded cross-checks.',
+        'level_note': NOTE_COMMON + 'Assumes stack length <= i32::MAX (axiom_stack_depth_fits_i32); assumed specification of Option::map_or; pest::Stack indexing by a range is part of the Stack model (cross-checked by nb_stackmodel on every sub-range); peek_spans is instantiated per call-site iterator type (R10) and S.iter().rev() is outlined (verified in slicefn, contract-only in slices).',
         'technique': TECH,
-        'verus': ['idx', 'nodes'],
+        'verus': ['idx', 'nodes', 'slices', 'slicefn'],
         'expanded': False,
         'kani': [
             ('k_idx', 'idx_constrain_full', 'complete', 'q', 'all i32 x Option<i32> x len<=i32::MAX'),
             ('k_idx', 'idx_constrain_contract', 'contract', 'q', 'kani contract on constrain_idxs'),
         ],
-        'native': NB_PEG_STACK + [NB_SLICES],
+        'native': NB_PEG_STACK + [NB_SLICES, ('nb_stackmodel', 'nb_stack_depth1', 'Stack model incl. indexing by every sub-range: all op sequences of length<=8, snapshot nesting depth<=1', 'q')],
         'assumptions': [
             'stack length <= i32::MAX (precondition of the index arithmetic; `len as i32` wraps beyond it — D6 in DESIGN.md)',
         ],
